@@ -76,3 +76,206 @@ func refMapKey(s string) string {
 	}
 	return s
 }
+
+// ---- reference parse for restricted declarations (C03, C10) ----
+//
+// Written from the package documentation and the property statements:
+// bool flags, string options, string positionals (optionally a trailing
+// slice) and command words. Short and long names are separate name spaces;
+// command words are in scope only until a command has been chosen.
+
+type refSpec struct {
+	flags   []string // "-x" / "--xx" names of bool flags
+	argopts []string // names of string options
+	npos    int      // number of string positionals
+	rest    bool     // trailing slice positional
+	cmds    []string // command words
+}
+
+type refResult struct {
+	ok   bool
+	skip bool // input outside the reference's domain (quoted argument)
+	rest []string
+	pos  []string
+	a    bool   // some flag occurred
+	b    string // last value of the string option
+	bset bool
+	cmd  string
+}
+
+func refIn(names []string, n string) bool {
+	for _, x := range names {
+		if x == n {
+			return true
+		}
+	}
+	return false
+}
+
+func refIndexByte(s string, c byte) int {
+	for i := 0; i < len(s); i++ {
+		if s[i] == c {
+			return i
+		}
+	}
+	return -1
+}
+
+func refParse(sp refSpec, opts Options, argv []string) refResult {
+	var r refResult
+	npos := sp.npos
+	i := 0
+	addArg := func(t string) {
+		if npos > 0 {
+			r.pos = append(r.pos, t)
+			npos--
+			return
+		}
+		if sp.rest {
+			r.pos = append(r.pos, t)
+			return
+		}
+		r.rest = append(r.rest, t)
+	}
+	admissible := func(t string) bool {
+		if refOptionSyntax(t) {
+			return false
+		}
+		if opts&PassDoubleDash != 0 && t == "--" {
+			return false
+		}
+		return true
+	}
+	for i < len(argv) {
+		t := argv[i]
+		i++
+		if opts&PassDoubleDash != 0 && t == "--" {
+			for ; i < len(argv); i++ {
+				addArg(argv[i])
+			}
+			break
+		}
+		if !refOptionSyntax(t) {
+			if opts&PassAfterNonOption != 0 && !(refIn(sp.cmds, t) && r.cmd == "") {
+				addArg(t)
+				for ; i < len(argv); i++ {
+					addArg(argv[i])
+				}
+				break
+			}
+			if npos > 0 || sp.rest {
+				addArg(t)
+				continue
+			}
+			if len(sp.cmds) > 0 && len(r.rest) == 0 && r.cmd == "" {
+				if refIn(sp.cmds, t) {
+					r.cmd = t
+					continue
+				}
+				return refResult{}
+			}
+			addArg(t)
+			continue
+		}
+		unknown := func() bool {
+			if opts&IgnoreUnknown != 0 {
+				addArg(t)
+				return true
+			}
+			return false
+		}
+		if len(t) >= 2 && t[0] == '-' && t[1] == '-' {
+			name := t[2:]
+			var arg *string
+			if k := refIndexByte(name, '='); k >= 0 {
+				v := name[k+1:]
+				arg = &v
+				name = name[:k]
+			}
+			switch {
+			case refIn(sp.flags, "--"+name):
+				if arg != nil {
+					return refResult{}
+				}
+				r.a = true
+			case refIn(sp.argopts, "--"+name):
+				if arg == nil {
+					if i >= len(argv) || !admissible(argv[i]) {
+						return refResult{}
+					}
+					v := argv[i]
+					i++
+					arg = &v
+				}
+				if len(*arg) > 0 && (*arg)[0] == '"' {
+					return refResult{skip: true}
+				}
+				r.b, r.bset = *arg, true
+			default:
+				if !unknown() {
+					return refResult{}
+				}
+			}
+			continue
+		}
+		// short option or cluster
+		body := t[1:]
+		rs := []rune(body)
+		n := len(string(rs[0]))
+		if rs[0] == 0xFFFD && !(len(body) >= 3 && body[0] == 0xEF && body[1] == 0xBF && body[2] == 0xBD) {
+			n = 1
+		}
+		var arg *string
+		runes := body
+		if len(body) > n && body[n] == '=' {
+			v := body[n+1:]
+			arg = &v
+			runes = body[:n]
+		} else if refIn(sp.argopts, "-"+string(rs[0])) && len(body) > n {
+			v := body[n:]
+			arg = &v
+			runes = body[:n]
+		}
+		total := len([]rune(runes))
+		cnt := 0
+		bad := false
+		for _, c := range runes {
+			cnt++
+			nm := "-" + string(c)
+			switch {
+			case refIn(sp.flags, nm):
+				if arg != nil {
+					return refResult{}
+				}
+				r.a = true
+			case refIn(sp.argopts, nm):
+				if arg == nil {
+					if cnt != total || i >= len(argv) || !admissible(argv[i]) {
+						return refResult{}
+					}
+					v := argv[i]
+					i++
+					arg = &v
+				}
+				if len(*arg) > 0 && (*arg)[0] == '"' {
+					return refResult{skip: true}
+				}
+				r.b, r.bset = *arg, true
+				arg = nil
+			default:
+				if !unknown() {
+					return refResult{}
+				}
+				bad = true
+			}
+			if bad {
+				break
+			}
+		}
+	}
+	if len(sp.cmds) > 0 && r.cmd == "" {
+		return refResult{}
+	}
+	r.ok = true
+	return r
+}
